@@ -141,14 +141,16 @@ def parse_vspec(path):
         elif key == 'entry':
             cur = dict(text=rest.strip())
             spec['entry'] = cur
-        elif key == 'loop':
-            n, _, r = rest.strip().partition(' ')
+        elif key in ('loop', 'closure'):
+            m = re.match(r'\s*"((?:[^"\\]|\\.)*)"\s*(.*)$', rest)
+            if m:
+                k = m.group(1).replace('\\"', '"')
+                r = m.group(2)
+            else:
+                n, _, r = rest.strip().partition(' ')
+                k = int(n)
             cur = dict(text=r.strip())
-            spec['loops'][int(n)] = cur
-        elif key == 'closure':
-            n, _, r = rest.strip().partition(' ')
-            cur = dict(text=r.strip())
-            spec['closures'][int(n)] = cur
+            spec['loops' if key == 'loop' else 'closures'][k] = cur
         elif key == 'at':
             m = re.match(r'\s*(before|after)\s+"((?:[^"\\]|\\.)*)"\s*(.*)$', rest)
             if not m:
@@ -204,9 +206,9 @@ GLOBAL_RULES = [
     ('R5', re.compile(r'\b((?:[A-Za-z_]\w*)(?:\.[A-Za-z_]\w*)*)\.deref\(\)'), lambda m: '(&*%s)' % m.group(1)),
     ('R13', re.compile(r'\bfor _ in\b'), lambda m: 'for _i in'),
     ('R9', re.compile(r'let (\w+) = ([\w\.\s]+?)\s*\.iter\(\)\s*\.map\(\|(\w+)\| ([^\n]+?)\)\s*\.collect::<Result<Vec<_>, _>>\(\)\?;'),
-     lambda m: 'let %s = { let mut __v = Vec::new(); for %s in %s.iter() { __v.push(%s?); } __v };' % (
+     lambda m: 'let %s = { let mut __v = Vec::new(); for %s in %s.iter() {\nlet __e = %s?;\n__v.push(__e);\n} __v };' % (
          m.group(1), m.group(3), re.sub(r'\s+', '', m.group(2)), m.group(4))),
-    ('R17', re.compile(r'(?<!\(#\[verifier::truncate\] \()(?<![\w\)])\(?\b([A-Za-z_]\w*) as usize\b\)?'),
+    ('R17', re.compile(r'(?<!truncate\] \()\b([A-Za-z_]\w*) as usize\b'),
      lambda m: '(#[verifier::truncate] (%s as usize))' % m.group(1)),
     ('R20', re.compile(r'(\bcmp_int_float\([^()]*\)) == Some\(Ordering::Equal\)'),
      lambda m: 'matches!(%s, Some(Ordering::Equal))' % m.group(1)),
@@ -472,11 +474,13 @@ class Weaver:
                 log.append(('R12', t))
             mt.replace(m.start(), m.end(), '')
             pos = m.start()
+        lost = []     # anchors that no longer resolve: the woven text is skipped (a proof aid is missing, never a verdict)
         # declared substitutions first (exact text, must match)
         for rid, old, new in spec['subs']:
             cnt = mt.text.count(old)
             if cnt == 0:
-                raise SliceError('%s: rewrite anchor lost (%s): %r' % (unit, rid, old))
+                log.append((rid, 'ANCHOR LOST: %s' % norm(old)))
+                continue
             pos = 0
             while True:
                 i = mt.text.find(old, pos)
@@ -510,39 +514,70 @@ class Weaver:
         for at in spec['ats']:
             cnt = mt.text.count(at['anchor'])
             if cnt != 1:
-                raise SliceError('%s: text anchor %r matches %d times' % (unit, at['anchor'], cnt))
+                lost.append('hint anchor %r (matches %d times)' % (at['anchor'], cnt))
+                continue
             i = mt.text.find(at['anchor'])
             if at['where'] == 'before':
                 mt.insert_line_at(i, hold(at['text']))
             else:
                 mt.insert_line_after(i + len(at['anchor']) - 1, hold(at['text']))
-        # loops (highest ordinal first so that offsets stay valid)
+        # loops: keyed by ordinal (source order) or by header text; resolved to offsets first, woven back to front
         msk = mask(mt.text)
         loops = find_loops(msk, 0, len(msk))
-        for n in sorted(spec['loops'], reverse=True):
-            if n < 1 or n > len(loops):
-                raise SliceError('%s: loop %d not found (function has %d loops)' % (unit, n, len(loops)))
-            kw, brace, kind = loops[n - 1]
-            txt = spec['loops'][n]['text']
+        chosen = []
+        for key_, sec in spec['loops'].items():
+            idx = None
+            if isinstance(key_, int):
+                if 1 <= key_ <= len(loops):
+                    idx = key_ - 1
+            else:
+                kt, _, kn = key_.partition('#')
+                hits = [i_ for i_, (kw_, br_, kd_) in enumerate(loops) if norm(kt) in norm(mt.text[kw_:br_])]
+                if kn and kn.isdigit() and len(hits) >= int(kn):
+                    idx = hits[int(kn) - 1]
+                elif not kn and len(hits) == 1:
+                    idx = hits[0]
+            if idx is None:
+                lost.append('loop %r' % (key_,))
+                continue
+            chosen.append((idx, sec['text'], key_))
+        for idx, txt, key_ in sorted(chosen, reverse=True):
+            kw, brace, kind = loops[idx]
+            n = idx + 1
             if kind == 'for':
                 hm = re.match(r'for\s+(.+?)\s+in\s+', mt.text[kw:brace], re.S)
                 if not hm:
-                    raise SliceError('%s: loop %d header shape' % (unit, n))
+                    lost.append('loop %r header shape' % (key_,))
+                    continue
                 ins = kw + hm.end()
-                mt.replace(brace, brace, '\n' + hold(txt) + '\n', woven=True)
-                mt.replace(ins, ins, '__it%d: ' % n)
-                log.append(('R11', 'loop %d: ghost iterator __it%d + woven invariants' % (n, n)))
+                itname = '__it%d' % n if isinstance(key_, int) else '__it_' + re.sub(r'\W+', '_', key_).strip('_')[:24]
+                mt.replace(brace, brace, '\n' + hold(txt.replace('__IT', itname)) + '\n', woven=True)
+                mt.replace(ins, ins, itname + ': ')
+                log.append(('R11', 'loop %r: ghost iterator %s + woven invariants' % (key_, itname)))
             else:
                 mt.replace(brace, brace, '\n' + hold(txt) + '\n', woven=True)
-                log.append(('R11', 'loop %d: woven invariants' % n))
-        # closures
+                log.append(('R11', 'loop %r: woven invariants' % (key_,)))
+        # closures: keyed by ordinal or by the text of their parameter list
         msk = mask(mt.text)
         cls = [(a_, b_) for a_, b_ in find_closures(msk, 0, len(msk)) if not msk[b_:].lstrip().startswith('->')]
-        for n in sorted(spec['closures'], reverse=True):
-            if n < 1 or n > len(cls):
-                raise SliceError('%s: closure %d not found (function has %d closures)' % (unit, n, len(cls)))
-            a, b = cls[n - 1]
-            txt = hold(spec['closures'][n]['text'].strip())
+        chosen = []
+        for key_, sec in spec['closures'].items():
+            idx = None
+            if isinstance(key_, int):
+                if 1 <= key_ <= len(cls):
+                    idx = key_ - 1
+            else:
+                hits = [i_ for i_, (a_, b_) in enumerate(cls) if norm(mt.text[a_:b_]) == norm(key_)]
+                if len(hits) >= 1:
+                    idx = hits
+            if idx is None:
+                lost.append('closure %r' % (key_,))
+                continue
+            for i_ in (idx if isinstance(idx, list) else [idx]):
+                chosen.append((i_, sec['text'], key_))
+        for idx, txt0, key_ in sorted(chosen, reverse=True):
+            a, b = cls[idx]
+            txt = hold(txt0.strip())
             rest = msk[b:]
             lead = len(rest) - len(rest.lstrip())
             if rest.lstrip().startswith('{'):
@@ -559,7 +594,7 @@ class Weaver:
                     j += 1
                 mt.replace(j, j, ' }')
                 mt.replace(b, b + lead, ' ' + txt + ' { ')
-            log.append(('closure', 'closure %d: woven contract' % n))
+            log.append(('closure', 'closure %r: woven contract' % (key_,)))
         # expand placeholders
         for k in range(len(holders) - 1, -1, -1):
             ph = '/*@@W%d@@*/' % k
@@ -596,7 +631,7 @@ class Weaver:
                             sha256=S.sha(it['start'], it['end']), line_start=unit_start, line_end=w.lineno,
                             body_start=body_start, rules=log, props_safety=spec['props_safety'],
                             props_internal=spec['props_internal'], fn=it['name'], notes=spec['notes'],
-                            regions=sorted([(body_start + ln, pr, rx) for ln, pr, rx in regions])))
+                            regions=sorted([(body_start + ln, pr, rx) for ln, pr, rx in regions]), lost_anchors=lost))
 
 
 def main():
